@@ -27,7 +27,7 @@ import cobra  # noqa: E402
 from cobra.io import (from_json, from_yaml, load_json_model, load_yaml_model, model_from_dict, model_to_dict,  # noqa: E402
                       save_json_model, save_yaml_model, to_json, to_yaml)
 
-FORMATS = ["dict_reuse", "json_str", "json_file", "json_handle", "yaml_str", "yaml_file", "dict", "pickle", "json_sorted", "dict_sorted"]
+FORMATS = ["dict_reuse", "json_str", "json_file", "json_handle", "yaml_str", "yaml_file", "dict", "pickle", "pickle_file", "pickle", "json_sorted", "dict_sorted"]
 
 
 def roundtrip(m, fmt, tmpdir):
@@ -65,7 +65,18 @@ def roundtrip(m, fmt, tmpdir):
         return model_from_dict(model_to_dict(m, sort=True))
     if fmt == "pickle":
         return pickle.loads(pickle.dumps(m))
+    if fmt == "pickle_file":
+        p = os.path.join(tmpdir, "m.pkl")
+        with open(p, "wb") as h:
+            pickle.dump(m, h, protocol=rng_protocol(m))
+        with open(p, "rb") as h:
+            return pickle.load(h)
     raise ValueError(fmt)
+
+
+def rng_protocol(m):
+    """A pickle protocol derived from the model (deterministic per case): all supported protocols get used."""
+    return 2 + (len(m.reactions) + len(m.metabolites)) % (pickle.HIGHEST_PROTOCOL - 1)
 
 
 def check_case(case):
@@ -79,7 +90,7 @@ def check_case(case):
             if case.get("config_bounds"):
                 conf.bounds = tuple(case["config_bounds"])
             m = richgen.build(spec)
-            groups = fmt == "pickle"
+            groups = fmt.startswith("pickle")
             d0 = richgen.rich_dump(m, with_groups=groups)
             g0 = canon.glpk_dump(m)
             with tempfile.TemporaryDirectory(dir="/root") as td:
@@ -93,6 +104,11 @@ def check_case(case):
                 g1 = canon.glpk_dump(m1)
                 if g1 != g0:
                     fails.append(f"{fmt}: flux-balance problem changed: {richgen.diff(g0, g1)}")
+                # ... also as the solver interface reports it (what another interface is handed when the solver is switched): a missing
+                # bound must not have become the largest float
+                o0, o1 = canon.optlang_dump(m, strict=True), canon.optlang_dump(m1, strict=True)
+                if o1 != o0:
+                    fails.append(f"{fmt}: flux-balance problem as reported by the solver interface changed: {richgen.diff(o0, o1)}")
                 if richgen.rich_dump(m, with_groups=groups) != d0:
                     fails.append(f"{fmt}: saving changed the original model")
                 try:
@@ -190,7 +206,7 @@ def run(ctx):
                                                               "CobraModel/Lemmas/DictScheme.lean", "CobraModel/Gen/DictKeys.lean"],
                        regenerate=translate_dictkeys.regenerate)
     rng = ctx.rng
-    n = ctx.scale(200, 5000)
+    n = ctx.scale(300, 5000)
     ran = 0
     kinds = {}
     distinct = set()
@@ -222,8 +238,13 @@ def run(ctx):
                 else:
                     corr_ok += 1
             # the key scheme (which keys are written for metabolites, genes, reactions and the model itself)
-            lines, want = scheme_lines(m)
-            out = [json.loads(l) for l in common.run_driver_persistent("dictio", lines)]
+            try:
+                lines, want = scheme_lines(m)
+            except Exception as e:      # the key tables of cobra/io/dict.py are written in a form the translator does not read
+                if not any(b.get("kind") == "translator" for b in ctx.broken):
+                    ctx.broken.append({"kind": "translator", "name": "translate_dictkeys", "detail": f"{type(e).__name__}: {e}"[:600]})
+                lines, want = [], []
+            out = [json.loads(l) for l in common.run_driver_persistent("dictio", lines)] if lines else []
             for l, w, o in zip(lines, want, out):
                 corr_n += 1
                 if o.get("keys") != w or o.get("roundtrip") is not True:
